@@ -91,6 +91,8 @@ def frame_wire(f, rng=None):
         return cpkt_wire(f[1], rng)
     if f[0] == 'undec':
         return 'x-bad'
+    if f[0] == 'emptybin':
+        return b''
     return '4' + 'y' * MAXBUF
 
 
@@ -99,6 +101,8 @@ def frame_term(f):
         return '(FPing %s)' % qbool(f[1])
     if f[0] == 'pk':
         return '(FPk %s)' % cpkt_term(f[1])
+    if f[0] == 'emptybin':
+        return '(FPk (CMsg 0 HNone))'          # a binary MESSAGE with an empty payload
     return 'FUndec' if f[0] == 'undec' else 'FOver'
 
 
@@ -146,6 +150,8 @@ def spkt_term(p):
 
 
 def payload_id(data):
+    if isinstance(data, (bytes, bytearray)) and len(data) == 0:
+        return 0
     m = re.search(r'(\d+)$', data) if isinstance(data, str) else None
     return int(m.group(1)) if m else 88888888
 
@@ -159,7 +165,9 @@ class Runner:
         kw.update(extra)
         if kind == 'asyncio':
             kw['coroutine_handlers'] = True
+        disc_raises = kw.pop('disc_raises', False)
         self.d = rt.DRIVERS[kind](**kw)
+        self.d.raise_in_disconnect = disc_raises
         self.sids = []            # model index -> real sid (or None while unknown)
         self.sid_ix = {}
         self.rids, self.cids, self.aids = {}, {}, {}
@@ -550,7 +558,7 @@ def gen_history(rng, cfg, length=25, weights=None, max_sessions=4, allow_disc_ha
                 f = ('pk', 'upgrade') if r < 0.75 else rng.choice([('ping', True), ('pk', 'pong'), ('pk', ('msg', new_mid(), 'none')), ('undec',), ('over',), ('pk', 'close')])
                 conns[c]['hs'] = 2 if f == ('pk', 'upgrade') else 9
             else:
-                f = ('pk', cpkt()) if r < 0.8 else rng.choice([('ping', True), ('ping', False), ('undec',), ('over',)])
+                f = ('pk', cpkt()) if r < 0.8 else rng.choice([('ping', True), ('ping', False), ('undec',), ('over',), ('emptybin',)])
             if conns[c]['hs'] == 9:
                 conns[c]['open'] = rng.random() < 0.3
             ops.append(('frame', c, f))
